@@ -259,7 +259,7 @@ for _pid in ("C02", "C04", "C05", "C06", "C07", "C09", "C10", "C11"):
 
 # ---- round 6 of the translator tie: code that was still hand-transcribed (tools/inventory_hashc.py ->
 #      lean/CC/Gen/HashCSrc.lean): the JH compressor as a whole, the Skein `Block` union, the Grøstl intrinsic dataflow
-for _pid, _thm in (("C06", "source_compressor_match"), ("C05", "source_block_match")):
+for _pid, _thm in (("C06", "source_compressor_match"), ("C05", "source_block_match"), ("C07", "source_dataflow_match")):
     if _thm not in PROPS[_pid]["theorems"]:
         PROPS[_pid]["theorems"] = list(PROPS[_pid]["theorems"]) + [_thm]
     _te = "tools/inventory_hashc.py (translator, round 6): reading table printed in the header of lean/CC/Gen/HashCSrc.lean (raw pointers, unions, transmute!, constant match, function values, intrinsics ↦ CC.Groestl.Intrin)"
